@@ -1,6 +1,12 @@
 ENGINES = [
-    {"name": "pv.runner", "path": "/verif/pv/runner.py", "serves_properties": [],
-     "kind_free_text": "sharded bounded-exhaustive case runner: enumerates a finite space completely, runs every case on the real code, compares with the reference model (pv.refsem / pv.sexp), writes evidence"},
+    {"name": "pv.runner", "path": "/verif/pv/runner.py", "serves_properties": ["C%02d" % i for i in range(1, 21)],
+     "kind_free_text": "sharded bounded-exhaustive case runner: enumerates a finite space completely, runs every case on the real code, compares with the reference model (pv.refsem / pv.sexp / pv.polyalg), matches known findings, re-runs the first cases in a fresh process, writes evidence and replay files"},
+    {"name": "pv.permsched", "path": "/verif/pv/permsched.py", "serves_properties": ["C02", "C03", "C08"],
+     "kind_free_text": "stateless deviation-bounded DFS over the iteration orders of the library's hash sets (harness-side PermSet seam, site-uniform schedules)"},
+    {"name": "pv.threadsched", "path": "/verif/pv/threadsched.py", "serves_properties": ["C07"],
+     "kind_free_text": "cooperative scheduler for real threads (sys.settrace line events + per-thread semaphores), preemption-bounded exhaustive schedule exploration"},
+    {"name": "pv.checks.c07 (BFS)", "path": "/verif/pv/checks/c07.py", "serves_properties": ["C07"],
+     "kind_free_text": "explicit-state breadth-first search over API event histories; worlds rebuilt by replay on fresh real objects, de-duplicated on a canonical digest; purity invariant in every world"},
 ]
 NOTES = ("Bounded-exhaustive model checking of the real library against an independent reference interpreter; "
          "see DESIGN.md. Exit 0 = held on everything explored, 1 = VIOLATION line(s), 2 = harness error.")
